@@ -23,6 +23,9 @@ LATE = {
  "C18-C": "scene with two contacts of different friction coefficients",
  "C18-D": "falling-bar tip scene (contact set unchanged while the normal directions turn); the earlier, accidental detection through a harness error was removed (Appendix F)",
  "C20-C": "large initial times (`BigT0`)",
+ "C03-B": "`T_SO3_dot` is compared along every direction, among them the direction of the ray itself (rates parallel to psi)",
+ "C23-A": "two dedicated problems placed at 170 degrees about the axis the rod is bent about (the scalar parts of the nodal quaternions change sign along the rod)",
+ "C23-B": "a purely absolute Newton tolerance makes the arc-length steps independent of the placement; the points of the moved Riks run must then be the moved points",
  "C23-C": "(scenario added on reading the change, before the first run) hard runs that stop early: the rows they return are judged",
  "C23-D": "(scenario added on reading the change, before the first run) the arc-length solver on a span that does not start at zero",
  "C26-D": "second rigid-body pool whose quaternions are scaled by 2.0 (same orientation, different coordinates)",
